@@ -151,7 +151,11 @@ func (c *Ctx) TLC(o TLCOpts) (*TLCResult, error) {
 	if xmx == 0 {
 		xmx = 6000
 	}
-	args := []string{"-XX:+UseParallelGC", fmt.Sprintf("-Xss%dm", xss), fmt.Sprintf("-Xmx%dm", xmx)}
+	// TLC leaves a tlc-* entry in java.io.tmpdir on every run: keep it inside
+	// the run directory, which is removed with the scratch directory
+	jtmp := filepath.Join(run, "jtmp")
+	_ = os.MkdirAll(jtmp, 0o755)
+	args := []string{"-XX:+UseParallelGC", fmt.Sprintf("-Xss%dm", xss), fmt.Sprintf("-Xmx%dm", xmx), "-Djava.io.tmpdir=" + jtmp}
 	if o.DFS {
 		args = append(args, "-Dtlc2.tool.queue.IStateQueue=StateDeque")
 	}
